@@ -82,6 +82,8 @@ func execLocal(line string) (impl, oracle string) {
 		return opFzFetch(w[1])
 	case "fzparse":
 		return opFzParse(w[1], w[2])
+	case "deep":
+		return opDeep(w[1], w[2])
 	}
 	panic("bad case line: " + line)
 }
